@@ -5,36 +5,69 @@ C12 — rolling back tokens restores exactly the earlier state (truncation arith
 import LlgVerif.Proofs.Rollback
 namespace LlgVerif
 
+/-- the state after committing the tokens `cs` and, optionally, a final bare EOS -/
+def afterCommits {LS} (v : Vocab) (s : RState LS) (cs : List (Cmt LS)) (e : Option (Nat × List LS)) : RState LS :=
+  match e with
+  | none => cs.foldl (RState.apply v) s
+  | some (t, extra) => (cs.foldl (RState.apply v) s).commitEos t extra
+
 /-- **rollback_commits** — for every state in which the per-byte bookkeeping is aligned, every
-sequence of committed tokens (special tokens and a final EOS included) and `k` = its length:
-rolling back `k` tokens restores every list exactly; a normal stop is undone. -/
-theorem rollback_commits {LS} (v : Vocab) (s : RState LS) (hs : s.WF) (cs : List (Cmt LS))
-    (hcs : ∀ c ∈ cs, c.WF v) (hne : cs ≠ []) :
-    (cs.foldl (RState.apply v) s).rollback v cs.length = some { s with stopOk := false } := by
-  obtain ⟨B, T, Ls, st, heq, h1, h3⟩ := apply_decomp v cs s hcs
+sequence of committed tokens — special tokens and end-of-sequence tokens that the grammar consumes
+*as tokens* included — optionally followed by the EOS that ends the sequence, and `k` = the number
+of tokens: rolling back `k` tokens restores every list exactly; a normal stop is undone. -/
+theorem rollback_commits {LS} (v : Vocab) (s : RState LS) (hs : s.WF) (hb : s.bareEos = false)
+    (cs : List (Cmt LS)) (hcs : ∀ c ∈ cs, c.WF v) (e : Option (Nat × List LS))
+    (hne : cs ≠ [] ∨ e.isSome = true) :
+    (afterCommits v s cs e).rollback v (cs.length + (if e.isSome then 1 else 0)) =
+      some { s with stopOk := false } := by
+  obtain ⟨B, T, Ls, heq, h1, h3⟩ := apply_decomp v cs s hcs
   obtain ⟨w1, w2, w3⟩ := hs
-  have hk : cs.length ≠ 0 := by
-    intro h; exact hne (List.length_eq_zero_iff.mp h)
-  rw [heq]
-  unfold RState.rollback
-  simp only [hk, ↓reduceIte, List.length_append, List.length_map]
-  have hgt : ¬ cs.length > s.tokens.length + cs.length := by omega
-  simp only [hgt, ↓reduceIte, Nat.add_sub_cancel]
-  have hdrop : (s.tokens ++ cs.map Cmt.token).drop s.tokens.length = cs.map Cmt.token := by
-    simp
-  rw [hdrop, h3]
-  simp only [h1, Nat.add_sub_cancel]
-  have hc : ¬ (B.length > s.llmBytes.length + B.length ∨ B.length > s.byteTok.length + B.length) := by
-    omega
-  rw [if_neg hc]
-  cases s with
-  | mk tokens llmBytes pBytes byteTok lexStack stopOk =>
-    simp only at w1 w2 w3
-    simp only [Option.some.injEq, RState.mk.injEq, List.take_left', and_true,
-      List.take_left, true_and]
-    refine ⟨?_, ?_⟩
-    · rw [w1]; simp
-    · rw [w1, ← w3]; simp
+  cases e with
+  | none =>
+    have hne' : cs ≠ [] := by rcases hne with h | h; exact h; simp at h
+    have hk : cs.length ≠ 0 := fun h => hne' (List.length_eq_zero_iff.mp h)
+    simp only [afterCommits, Option.isSome_none, Bool.false_eq_true, ↓reduceIte, Nat.add_zero]
+    rw [heq]
+    unfold RState.rollback
+    simp only [hk, ↓reduceIte, List.length_append, List.length_map, hne']
+    have hgt : ¬ cs.length > s.tokens.length + cs.length := by omega
+    simp only [hgt, ↓reduceIte, Nat.add_sub_cancel]
+    have hdrop : (s.tokens ++ cs.map Cmt.t).drop s.tokens.length = cs.map Cmt.t := by simp
+    rw [hdrop]
+    simp only [bytesToDrop, Bool.false_eq_true, ↓reduceIte, h3, h1, Nat.add_sub_cancel]
+    have hc : ¬ (B.length > s.llmBytes.length + B.length ∨ B.length > s.byteTok.length + B.length) := by omega
+    rw [if_neg hc]
+    cases s with
+    | mk tokens llmBytes pBytes byteTok lexStack stopOk bareEos =>
+      simp only at w1 w2 w3 hb
+      simp only [Option.some.injEq, RState.mk.injEq, List.take_left', and_true, List.take_left, true_and]
+      refine ⟨?_, ?_, hb.symm⟩
+      · rw [w1]; simp
+      · rw [w1, ← w3]; simp
+  | some te =>
+    obtain ⟨t, extra⟩ := te
+    simp only [afterCommits, Option.isSome_some, ↓reduceIte]
+    rw [heq]
+    unfold RState.rollback RState.commitEos
+    have hk : cs.length + 1 ≠ 0 := by omega
+    simp only [hk, ↓reduceIte, List.length_append, List.length_map, List.length_cons, List.length_nil]
+    have hgt : ¬ cs.length + 1 > s.tokens.length + cs.length + (0 + 1) := by omega
+    simp only [hgt, ↓reduceIte]
+    have e1 : s.tokens.length + cs.length + (0 + 1) - (cs.length + 1) = s.tokens.length := by omega
+    rw [e1]
+    have hdrop : (s.tokens ++ cs.map Cmt.t ++ [t]).drop s.tokens.length = cs.map Cmt.t ++ [t] := by
+      rw [List.append_assoc]; simp
+    rw [hdrop]
+    simp only [bytesToDrop, ↓reduceIte, List.dropLast_concat, h3, h1, Nat.add_sub_cancel]
+    have hc : ¬ (B.length > s.llmBytes.length + B.length ∨ B.length > s.byteTok.length + B.length) := by omega
+    rw [if_neg hc]
+    cases s with
+    | mk tokens llmBytes pBytes byteTok lexStack stopOk bareEos =>
+      simp only at w1 w2 w3 hb
+      simp only [Option.some.injEq, RState.mk.injEq, List.take_left', and_true, true_and]
+      refine ⟨by rw [List.append_assoc]; simp, ?_, ?_, hb.symm⟩
+      · rw [w1]; simp
+      · rw [w1, ← w3, List.append_assoc]; simp
 
 /-- rolling back zero tokens is the identity; more than were committed is an error -/
 theorem rollback_bounds {LS} (v : Vocab) (s : RState LS) :
@@ -45,14 +78,14 @@ theorem rollback_bounds {LS} (v : Vocab) (s : RState LS) :
     have : k ≠ 0 := by omega
     simp [RState.rollback, this, hk]
 
-/-- Non-vacuity: tokens 5 (`"ab"`) and 300 (special: `\xFF[300]`, 6 bytes), then EOS 7. -/
+/-- Non-vacuity: tokens 5 (`"ab"`), 300 (special: `\xFF[300]`, 6 bytes), the EOS id 7 consumed *as a token*
+(`\xFF[7]`, 4 bytes), then the EOS that ends the sequence. -/
 example :
     let v : Vocab := { bytes := fun t => if t = 5 then [97, 98] else if t = 300 then [0xFF, 60, 62] else [], eos := [7] }
-    let s : RState Nat := { tokens := [], llmBytes := [], pBytes := [], byteTok := [], lexStack := [0], stopOk := false }
-    ((([Cmt.tok 5 [1, 2], Cmt.tok 300 [3, 4, 5, 6, 7, 8], Cmt.eos 7 [9]] : List (Cmt Nat)).foldl (RState.apply v) s).rollback v 3)
-      = some s := by
+    let s : RState Nat := { tokens := [], llmBytes := [], pBytes := [], byteTok := [], lexStack := [0], stopOk := false, bareEos := false }
+    (afterCommits v s [⟨5, [1, 2]⟩, ⟨300, [3, 4, 5, 6, 7, 8]⟩, ⟨7, [9, 10, 11, 12]⟩] (some (7, [13]))).rollback v 4 = some s := by
   intro v s
-  simp [RState.rollback, RState.apply, RState.commit, RState.commitEos, bytesToDrop, Vocab.tokenLen,
+  simp [afterCommits, RState.rollback, RState.apply, RState.commit, RState.commitEos, bytesToDrop, Vocab.tokenLen,
     Vocab.decodeRaw, Vocab.isSpecial, specialTokenLen, digitsLoop, decodeSpecial, decDigits, v, s]
 
 end LlgVerif
